@@ -16,6 +16,9 @@ fn usage() -> i32 {
 /// the driver decides), 2 machinery error, 3 replay reproduced a violation.
 pub fn entry() -> i32 {
     kit::panics::install();
+    // deep (non-tail) recursion in the code under test on large honest inputs must not take the harness down:
+    // generous stacks for the worker threads (virtual memory only)
+    let _ = rayon::ThreadPoolBuilder::new().stack_size(256 << 20).build_global();
     let args: Vec<String> = std::env::args().collect();
     if args.len() < 2 {
         return usage();
